@@ -5,6 +5,7 @@ G2 (strategy): generated ASTs — lazily declared type vs the framework typing
 rule, eager result vs lazily declared type, data vs declaration.
 """
 import itertools
+import os
 
 import numpy as np
 from hypothesis import strategies as st
@@ -389,6 +390,28 @@ class C06(Prop):
             stt.exhaustive = True
 
     def check(self, case, stt):
+        from funsor import interpreter
+        import funsor.interpretations as I
+
+        typecheck = os.environ.get("FUNSOR_TYPECHECK", "0") == "1"
+        if typecheck:
+            stt.count("FUNSOR_TYPECHECK=1")
+        try:
+            return self._check(case, stt)
+        finally:
+            # whatever the re-check did (it may raise), the default interpretation is back afterwards
+            stack = interpreter._STACK
+            if len(stack) != 2 or stack[0] is not I.reflect or stack[1] is not I.eager:
+                names = [getattr(x, "__name__", repr(x)) for x in stack]
+                del stack[2:]
+                if len(stack) < 2 or stack[0] is not I.reflect or stack[1] is not I.eager:
+                    stack[:] = [I.reflect, I.eager]
+                import sys
+
+                if not isinstance(sys.exc_info()[1], Violation):
+                    raise Violation("interpretation-stack-not-restored", f"after the case the interpretation stack is {names} (FUNSOR_TYPECHECK={int(typecheck)}): {self.describe(case)}")
+
+    def _check(self, case, stt):
         import funsor.interpretations as I
         from vf.build import build, check_tensor_data, funsor_type
 
